@@ -47,6 +47,7 @@ type Frame struct {
 	vars            map[string]scopeVar // parameter names -> entry values
 	entry           *State
 	top             bool // the function under verification
+	adoptBase       int  // inlined helper with loops: ordinal of the loop contract its first loop adopts (-1: none)
 	callOrd         map[string]int
 	loops           map[*ssa.BasicBlock]*loopInfo
 	pendingBindings []Value
@@ -65,7 +66,7 @@ type loopInfo struct {
 
 func (vc *VC) newFrame(fn *ssa.Function, parent *Frame) *Frame {
 	vc.frameSeq++
-	f := &Frame{vc: vc, fn: fn, id: vc.frameSeq, regs: map[ssa.Value]Value{}, parent: parent, vars: map[string]scopeVar{}, callOrd: map[string]int{}, loops: map[*ssa.BasicBlock]*loopInfo{}}
+	f := &Frame{adoptBase: -1, vc: vc, fn: fn, id: vc.frameSeq, regs: map[ssa.Value]Value{}, parent: parent, vars: map[string]scopeVar{}, callOrd: map[string]int{}, loops: map[*ssa.BasicBlock]*loopInfo{}}
 	if parent != nil {
 		f.depth = parent.depth + 1
 	}
@@ -85,6 +86,7 @@ func (f *Frame) allAllocs() []*ssa.Alloc {
 }
 
 func (f *Frame) hasLocal(name string) bool {
+	name = f.vc.p.curName(f.fn, name)
 	for _, a := range f.allAllocs() {
 		if a.Comment == name {
 			return true
@@ -96,6 +98,7 @@ func (f *Frame) hasLocal(name string) bool {
 // localByName reads the current content of the source variable `name` (or
 // name#k for the k-th variable of that name).
 func (f *Frame) localByName(st *State, name string) (Term, types.Type, bool) {
+	name = f.vc.p.curName(f.fn, name)
 	want := 0
 	base := name
 	for i := 0; i < len(name); i++ {
